@@ -138,6 +138,23 @@ class Stream:
                             'what': 'tagged-foreign-object', 'spec': f2}
                     except (ValueError, RecursionError):
                         pass
+            al = {c['aliases'][a]: a for c in spec['classes']
+                  for a in (c.get('aliases') or {})}
+            if al:
+                # the same document with enum members under their aliases
+                a2, n_al = sp, 0
+                for p, sub in D.paths(sp):
+                    if sub[0] == 's' and sub[2] in al and (
+                            not p or p[-1][0] != 'k'):
+                        a2 = D.set_at(a2, p, ['s', sub[1], al[sub[2]]])
+                        n_al += 1
+                if n_al:
+                    try:
+                        yield D.render(a2, rng.choice(self.styles)), {
+                            'origin': 'mutant', 'what': 'enum-alias',
+                            'spec': a2}
+                    except (ValueError, RecursionError):
+                        pass
             if self.mutants and rng.random() < 0.35:
                 d2 = D.dup_int_as_bool(sp, rng)
                 if d2 is not None:
